@@ -11,7 +11,7 @@ def main():
     print("| id | what the change does (sub-agent's summary, shortened) | needs to manifest | tests still 176/176 | detected by (quick) | first evaluation |")
     print("|---|---|---|---|---|---|")
     n = det = 0
-    for d in sorted(glob.glob(os.path.join(HERE, "seeded", "C*-s*"))):
+    for d in sorted(glob.glob(os.path.join(HERE, "seeded", "C*"))):
         m = json.load(open(os.path.join(d, "meta.json")))
         n += 1
         cur = m.get("detected_by") or []
